@@ -20,7 +20,7 @@ var (
 	ratOne  = big.NewRat(1, 1)
 )
 
-func pow2(n uint) *big.Int   { return new(big.Int).Lsh(bigOne, n) }
+func pow2(n uint) *big.Int { return new(big.Int).Lsh(bigOne, n) }
 
 // ratPow2Tab[k] = 2^k as a shared, read-only rational.
 var ratPow2Tab = func() []*big.Rat {
@@ -39,15 +39,15 @@ func ratPow2(k uint) *big.Rat {
 }
 func pow2m1(n uint) *big.Int { return new(big.Int).Sub(pow2(n), bigOne) }
 
-func itvOf(lo, hi int64) Itv    { return Itv{big.NewInt(lo), big.NewInt(hi)} }
-func single(x *big.Int) Itv     { return Itv{x, x} }
-func (i Itv) IsSingle() bool    { return i.Lo.Cmp(i.Hi) == 0 }
-func (i Itv) Leq(j Itv) bool    { return i.Lo.Cmp(j.Lo) >= 0 && i.Hi.Cmp(j.Hi) <= 0 }
-func (i Itv) NonNeg() bool      { return i.Lo.Sign() >= 0 }
-func (i Itv) String() string    { return "[" + i.Lo.String() + ", " + i.Hi.String() + "]" }
-func (i Itv) Add(j Itv) Itv     { return Itv{new(big.Int).Add(i.Lo, j.Lo), new(big.Int).Add(i.Hi, j.Hi)} }
-func (i Itv) Sub(j Itv) Itv     { return Itv{new(big.Int).Sub(i.Lo, j.Hi), new(big.Int).Sub(i.Hi, j.Lo)} }
-func (i Itv) Neg() Itv          { return Itv{new(big.Int).Neg(i.Hi), new(big.Int).Neg(i.Lo)} }
+func itvOf(lo, hi int64) Itv           { return Itv{big.NewInt(lo), big.NewInt(hi)} }
+func single(x *big.Int) Itv            { return Itv{x, x} }
+func (i Itv) IsSingle() bool           { return i.Lo.Cmp(i.Hi) == 0 }
+func (i Itv) Leq(j Itv) bool           { return i.Lo.Cmp(j.Lo) >= 0 && i.Hi.Cmp(j.Hi) <= 0 }
+func (i Itv) NonNeg() bool             { return i.Lo.Sign() >= 0 }
+func (i Itv) String() string           { return "[" + i.Lo.String() + ", " + i.Hi.String() + "]" }
+func (i Itv) Add(j Itv) Itv            { return Itv{new(big.Int).Add(i.Lo, j.Lo), new(big.Int).Add(i.Hi, j.Hi)} }
+func (i Itv) Sub(j Itv) Itv            { return Itv{new(big.Int).Sub(i.Lo, j.Hi), new(big.Int).Sub(i.Hi, j.Lo)} }
+func (i Itv) Neg() Itv                 { return Itv{new(big.Int).Neg(i.Hi), new(big.Int).Neg(i.Lo)} }
 func (i Itv) Contains(x *big.Int) bool { return i.Lo.Cmp(x) <= 0 && x.Cmp(i.Hi) <= 0 }
 
 func (i Itv) Mul(j Itv) Itv {
